@@ -1,3 +1,126 @@
 import Driver.Loop
-/- placeholder: the C19 view has no executable model yet -/
-def main : IO Unit := Drv.runLoop fun _ => .atom "bad-op"
+import PMV.Model.Faults
+/- line-protocol handler for the C19 view (rejected operations fail cleanly) -/
+namespace Drv.C19
+open PMV PMV.Faults
+
+def err (msg : String) : Sx := .list [.atom "driver-error", .atom msg]
+
+def parseCls : String → Option Cls
+  | "Scalar" => some .scalar | "Boolean" => some .boolean | "Vector" => some .vector
+  | "Vector3" => some .vector3 | "Pair" => some .pair | "Matrix" => some .matrix
+  | "Matrix3" => some .matrix3 | "Quaternion" => some .quaternion | _ => none
+
+def parseKind : String → Option Kind
+  | "bool" => some .bool | "int" => some .int | "float" => some .float | _ => none
+
+def parseUnits : Sx → Option (Option Nat)
+  | .atom "-" => some none
+  | x => x.toNat?.map some
+
+def parseDeriv : Sx → Option Deriv
+  | .list [.atom key, dn, ro] => do
+    let dn ← dn.nats?
+    let ro ← ro.toBool?
+    some ⟨key, dn, ro, 0⟩
+  | _ => none
+
+/-- `(cls kind (shape) (numer) (denom) units ro ((key (denom) ro) …))` -/
+def parseObj : Sx → Option Obj
+  | .list [.atom cls, .atom kind, sh, nu, de, un, ro, .list ds] => do
+    let cls ← parseCls cls
+    let kind ← parseKind kind
+    let sh ← sh.nats?
+    let nu ← nu.nats?
+    let de ← de.nats?
+    let un ← parseUnits un
+    let ro ← ro.toBool?
+    let ds ← ds.mapM parseDeriv
+    some ⟨cls, kind, sh, nu, de, un, ro, 0, ds⟩
+  | _ => none
+
+def parseArg : Sx → Option Arg
+  | .list [.atom "num", .atom k, z] => do
+    let k ← parseKind k
+    let z ← z.toBool?
+    some (.num k z)
+  | .list [.atom "nd", .atom k, sh] => do
+    let k ← parseKind k
+    let sh ← sh.nats?
+    some (.nd k sh)
+  | .list [.atom "q", o] => (parseObj o).map .q
+  | .list [.atom "bad"] => some .bad
+  | _ => none
+
+def parseIdx : Sx → Option Idx
+  | .list [.atom "fails"] => some (.fails .other)
+  | .list [.atom "nothing"] => some .nothing
+  | .list [.atom "sel", sh] => sh.nats?.map .sel
+  | _ => none
+
+def parseUArg : Sx → Option UArg
+  | .atom "none" => some .none
+  | .atom "bad" => some .bad
+  | x => x.toNat?.map .unit
+
+def parseKeyArg : Sx → Option (String × Arg)
+  | .list [.atom k, a] => (parseArg a).map fun a => (k, a)
+  | _ => none
+
+def parseKeys : Sx → Option (List String)
+  | .list l => l.mapM fun | .atom s => some s | _ => none
+  | _ => none
+
+def parseCall : List Sx → Option (Obj × Call)
+  | [.atom "setitem", t, ix, a] => do
+    let t ← parseObj t; let ix ← parseIdx ix; let a ← parseArg a
+    some (t, .setitem ix a)
+  | [.atom "insert_deriv", t, .atom key, a, ov] => do
+    let t ← parseObj t; let a ← parseArg a; let ov ← ov.toBool?
+    some (t, .insertDeriv key a ov)
+  | [.atom "insert_derivs", t, .list ds, ov] => do
+    let t ← parseObj t; let ds ← ds.mapM parseKeyArg; let ov ← ov.toBool?
+    some (t, .insertDerivs ds ov)
+  | [.atom "delete_deriv", t, .atom key, ov] => do
+    let t ← parseObj t; let ov ← ov.toBool?
+    some (t, .deleteDeriv key ov)
+  | [.atom "delete_derivs", t, ks, ov] => do
+    let t ← parseObj t; let ks ← parseKeys ks; let ov ← ov.toBool?
+    some (t, .deleteDerivs ks ov)
+  | [.atom "set_units", t, u, ov] => do
+    let t ← parseObj t; let u ← parseUArg u; let ov ← ov.toBool?
+    some (t, .setUnits u ov)
+  | [.atom op, t, a] => do
+    let t ← parseObj t; let a ← parseArg a
+    match op with
+    | "iadd" => some (t, .iadd a) | "isub" => some (t, .isub a) | "imul" => some (t, .imul a)
+    | "itruediv" => some (t, .itruediv a) | "ifloordiv" => some (t, .ifloordiv a) | "imod" => some (t, .imod a)
+    | "iand" | "ior" | "ixor" => some (t, .ilogic a)
+    | _ => none
+  | _ => none
+
+/-- TypeError and ValueError are reported as one token: which of two independent failed validations is reported
+    first is not part of the property, so reordering them in the source must not break the correspondence -/
+def excSx : Exc → String
+  | .typeError => "TypeError|ValueError" | .valueError => "TypeError|ValueError" | .indexError => "IndexError"
+  | .other => "Other"
+
+def kindSx : Kind → String
+  | .bool => "bool" | .int => "int" | .float => "float"
+
+def sortStrings (l : List String) : List String := (l.toArray.qsort (· < ·)).toList
+
+def handle (req : List Sx) : Sx :=
+  match parseCall req with
+  | none => err "c19-request"
+  | some (s, c) =>
+    match run s c with
+    | (s', some e) => .list [.atom (excSx e), .atom (if s' == s then "clean" else "dirty")]
+    | (s', none) => .list [.atom "ok", .atom (kindSx s'.kind), .list ((sortStrings (s'.derivs.map (·.key))).map .atom)]
+
+end Drv.C19
+
+def main : IO Unit := Drv.runLoop fun x =>
+  match x with
+  | .list (.atom "c19" :: rest) => Drv.C19.handle rest
+  | _ => .atom "bad-op"
